@@ -9,6 +9,9 @@ func init() {
 			ruleCniAddDel(c, "C12.R1")
 			c.Rule("C12.R2", "delegates receive Conf and IfName of the same entry", 2)
 			ruleDelegateArgs(c, "C12.R2")
+			c.Rule("C12.R6", "state file removed only by consuming it; JSON annotation entries used as decoded", 3)
+			ruleStateFileOwnership(c, "C12.R6")
+			ruleAnnotationJSONUntouched(c, "C12.R6")
 			c.Rule("C12.R3", "port mapping pairing in the request handler", 3)
 			ruleRequestPortMapping(c, "C12.R3")
 			c.Rule("C12.R4", "static configuration never written after Init", 3)
